@@ -16,6 +16,11 @@ def gen_path(rnd, regs):
     def pt(inside):
         for _ in range(300):
             kx, ky = rnd.randint(40, BEDK), rnd.randint(40, BEDK)
+            if rnd.random() < 0.08:
+                if rnd.random() < 0.5:
+                    kx = 0        # a coordinate of exactly 0 (bed edge)
+                else:
+                    ky = 0
             d = depth_in(regs, kx * G, ky * G) if regs else -1.0
             if abs(d) < MARGIN:
                 continue
